@@ -294,7 +294,8 @@ class Interp(object):
     identity, API calls that raised, wrong return values).
     """
 
-    def __init__(self, prog, probe=None):
+    def __init__(self, prog, probe=None, tag=False):
+        self.tag = tag
         self.prog = prog
         self.forest = []
         self.stack = []
@@ -438,6 +439,9 @@ class Interp(object):
             atype = ATYPES[a.get("at", 0)]
             start_ref, start_args = dict(sf), dict(sf)
             end_ref, end_args = dict(ef), dict(ef)
+        if self.tag:
+            start_ref["vk_style"] = style
+            start_args["vk_style"] = style
         ref = {
             "k": "a",
             "type": atype,
